@@ -13,6 +13,7 @@ import Dippy.Model.LogFS
 import Dippy.Generated.Tables
 import Dippy.Generated.Hook
 import Dippy.Model.Wrappers
+import Dippy.Model.ProcState
 
 open Lean Dippy
 
@@ -439,6 +440,18 @@ def handle (j : Json) : R Json := do
       ("bashAssignShape", Json.str Generated.H.bashAssignShape), ("analyzerAssignRe", Json.str Generated.H.analyzerAssignRe),
       ("runsScriptsCommands", l Generated.runsScriptsCommands),
       ("wrapperFlagsWithArg", Json.arr (Generated.wrapperFlagsWithArg.map fun kv => Json.arr #[Json.str kv.1, l kv.2]).toArray)]
+  | "lru" =>
+    -- replay a key sequence against the cache model: per operation hit/miss and the size afterwards
+    let cap := natD j "cap" 32
+    let keys ← strList (j.getObjValD "keys")
+    let (_, outs) := keys.foldl (fun (acc : List (String × String) × List Json) k =>
+      let hit := (acc.1.find? (fun kv => kv.1 == k)).isSome
+      let c' := (PS.lruGet cap (fun x => x) acc.1 k).1
+      (c', acc.2 ++ [Json.mkObj [("hit", Json.bool hit), ("size", Json.num c'.length), ("keys", Json.arr (c'.map fun kv => Json.str kv.1).toArray)]])) ([], [])
+    return Json.arr outs.toArray
+  | "statefacts" =>
+    return Json.mkObj [("handlerCacheSize", Json.num Generated.handlerCacheSize),
+      ("mutableState", Json.arr (Generated.mutableState.map fun t => Json.arr #[Json.str t.1, Json.str t.2.1, Json.str t.2.2]).toArray)]
   | "bashquote" => return Json.str (bashQuote (← str j "s"))
   | "bashjoin" => return Json.str (bashJoin (← strList (j.getObjValD "tokens")))
   | "shellwords" =>
